@@ -116,7 +116,8 @@ type Event struct {
 type gcmd struct {
 	fault bool
 	ok    bool
-	ttl   int // builder TTL hint in ticks (0 = none)
+	same  bool // builder returns the (stale) value it is replacing
+	ttl   int  // builder TTL hint in ticks (0 = none)
 }
 
 type arrival struct {
@@ -144,13 +145,14 @@ type sched struct {
 	yield   func()                 // free-running mode: called at gates to shake the schedule
 	freeCmd func(kind string) gcmd // free-running mode: outcome / fault chosen by the driver
 	flavour int                    // rotates the error flavour of failing builders
+	lastExp map[string]string      // process -> last expired value its backend read returned
 	gateLog bool
 	gateSt  bool
 }
 
 func newSched(km *KeyMap, u time.Duration, keys []string) *sched {
 	s := &sched{parked: map[string]*arrival{}, km: km, u: u, nb: map[string]*int64{}, inside: map[string]int{},
-		maxIn: map[string]int{}}
+		maxIn: map[string]int{}, lastExp: map[string]string{}}
 	for _, k := range keys {
 		s.nb[k] = new(int64)
 	}
@@ -301,6 +303,13 @@ func (s *sched) build(ctx context.Context, p, mk string, bg func() bool) (string
 
 	if c.ok {
 		v := fmt.Sprintf("%s#%d", mk, n)
+
+		if c.same {
+			s.mu.Lock()
+			v = s.lastExp[p]
+			s.mu.Unlock()
+		}
+
 		s.rec(Event{Ev: "bexit", P: p, K: mk, N: n, V: v, C: "ok", TTL: c.ttl, Note: note, Bg: bg()})
 
 		return v, nil
@@ -337,6 +346,13 @@ func (g *gateRW) Read(ctx context.Context, key []byte) (interface{}, error) {
 
 	v, err := g.inner.Read(ctx, key)
 	r := classifyAny(v, err)
+
+	if r.Class == "expired" {
+		g.s.mu.Lock()
+		g.s.lastExp[p] = r.V
+		g.s.mu.Unlock()
+	}
+
 	g.s.rec(Event{Ev: "beRead", P: p, K: mk, C: r.Class, V: r.V, E: g.tick(r)})
 
 	return v, err
@@ -402,6 +418,10 @@ func (g *gateRWOf) Read(ctx context.Context, key []byte) (string, error) {
 		ev.C, ev.V = "hit", v
 	case errors.As(err, &ex):
 		ev.C, ev.V, ev.E = "expired", ex.Value(), TickOf(ex.ExpiredAt().UnixNano(), g.t0(), g.s.u)
+
+		g.s.mu.Lock()
+		g.s.lastExp[p] = ex.Value()
+		g.s.mu.Unlock()
 	case errors.Is(err, cache.ErrNotFound):
 		ev.C = "notfound"
 	default:
@@ -480,6 +500,7 @@ var foStatGates = map[string]string{
 	cache.MetricRefreshed: "refreshstat",
 	cache.MetricFailed:    "failstat",
 	cache.MetricBuild:     "buildstat",
+	cache.MetricChanged:   "changestat",
 }
 
 // statHook parks at the Failover-level metrics (name = the Failover's own name), records everything.
